@@ -717,7 +717,11 @@ func runC15(c *Ctx) {
 	}
 	c.Extra("range_statements_examined", nRanges)
 	c.Extra("unordered_ranges", nUnordered)
-	c.Check("R15.1", "range statements were examined", token.NoPos, nRanges >= 30, fmt.Sprintf("only %d range statements in reachable module code", nRanges))
+	if nRanges >= 30 {
+		c.Pass("R15.1", "range statements were examined", token.NoPos, fmt.Sprint(nRanges))
+	} else {
+		c.Undecided("R15.1", "range statements were examined", token.NoPos, fmt.Sprintf("only %d range statements in reachable module code (30 and more on the pinned tree): loops may be written in a form this rule does not enumerate", nRanges))
+	}
 
 	// positive control
 	if fx, err := loadFixture(c, "order"); err != nil {
